@@ -31,6 +31,8 @@ func init() {
 		rules.LabelMatchingByLibrary(p, r, "C01-match")
 		rules.SomePeerSelects(p, r, "C01-exists")
 		rules.ExposureShortcut(p, r, "C01-shortcut")
+		rules.SeenSetKeyCompleteness(p, r, "C01-e-seen")
+		rules.UnconditionalIPBlockContribution(p, r, "C01-e-all")
 		r.Floor("C01-a", 20)
 		r.Assume("relevant-field table written from the property statement (NetworkPolicySpec/Rule/Peer/IPBlock/Port, ContainerPort, ObjectMeta)")
 		r.Assume("endpoint roles are seeded at CheckIfAllowed and AllAllowedConnectionsBetweenWorkloadPeers: first peer parameter = source, second = destination")
